@@ -100,6 +100,16 @@ func tierHistories(thorough bool) []history {
 
 var subs = []string{"a", "b"}
 
+// storeID is the subscription id that the store is given for the letter of a history: two
+// ids that are different strings and the same number, so that the two subscriptions of
+// every history share a row wherever ids are compared as anything but strings.
+func storeID(letter string) string {
+	if letter == "b" {
+		return "07"
+	}
+	return "7"
+}
+
 // write-class system calls on the database files that are crash points. openat is
 // included because creating a file (database, WAL, SHM) is an effect of its own.
 const syscallSet = "open,openat,creat,pwrite64,write,pwritev,writev,ftruncate,fallocate,fsync,fdatasync,unlink,unlinkat,rename,renameat,renameat2"
@@ -161,7 +171,7 @@ func observe(st *sqlite.SQLiteStore) obs {
 		o.Offs = append(o.Offs, string(e.Offset))
 	}
 	for _, s := range subs {
-		v, err := st.LoadOffset(ctx, s)
+		v, err := st.LoadOffset(ctx, storeID(s))
 		if err != nil {
 			o.Err = "LoadOffset(" + s + "): " + err.Error()
 			return o
@@ -243,7 +253,7 @@ func childMain(args []string) {
 				os.Exit(4)
 			}
 			say("try %d save %s", i, jsonOf(map[string]any{"sub": sub, "offset": offs[j]}))
-			if err := st.SaveOffset(ctx, sub, eventbus.Offset(offs[j])); err != nil {
+			if err := st.SaveOffset(ctx, storeID(sub), eventbus.Offset(offs[j])); err != nil {
 				fail(i, "save", err)
 			}
 			say("ack %d save %s", i, jsonOf(map[string]any{"sub": sub, "offset": offs[j]}))
@@ -1121,7 +1131,7 @@ func main() {
 		return map[string]any{
 			"rule":        "every k in 1..K per history (K = number of write-class system calls on the database files, see notes) plus a clean close after every operation prefix; thorough: for every level-1 crash image every k2 in 1..K2 of the recovery child (" + recoverOps + ") plus its uninjected completion. evaluations = child processes run under the enumeration. non-trivial = clean-close cases, plus crash points k (or k2) where k = 1 or the system call before the kill point modified a file (" + "openat/pwrite64/write/ftruncate/unlink…" + "), i.e. the crash image differs from the image of the previous crash point; crash points right after fsync/fdatasync are the trivial ones",
 			"histories":   hs,
-			"op_codes":    "O open+read+load offsets, A append next event (every third payload is 9 kB: overflow pages, multi-frame WAL transaction), S<sub><n> SaveOffset(sub, offset of the n-th latest event), C Close; a history that does not end in C exits without closing",
+			"op_codes":    "O open+read+load offsets, A append next event (every third payload is 9 kB: overflow pages, multi-frame WAL transaction), S<sub><n> SaveOffset(sub, offset of the n-th latest event; the two subscription ids given to the store are \"7\" and \"07\"), C Close; a history that does not end in C exits without closing",
 			"syscall_set": syscallSet,
 			"strace":      "strace -f -y -o <log> -e trace=<set> -P x.db -P x.db-wal -P x.db-shm -P x.db-journal -e inject=<name of call k>:signal=KILL:when=<its ordinal among calls of that name> <self> child -db … -ops … (strace counts injections per system-call name; every killed run's trace is compared with the first k calls of the uninjected run)",
 		}
